@@ -55,3 +55,46 @@ package modzip
 //@   effect os.MkdirAll#1 requires module.safeRel(name) && same(dst, joinPath(dir, name))
 //@   effect io.Copy#0 requires lr.N <= zf.UncompressedSize64 + 1
 //@   assigns heap
+
+// ---- C15: creating a zip from a directory lists every file ----
+//@ func path/filepath.Rel
+//@   assumed A-ext filepath.Rel: pure; its error is never one of the walk-control sentinels
+//@   pure
+//@   ensures result1 != filepath.SkipDir && result1 != filepath.SkipAll
+//@ func path/filepath.ToSlash
+//@   assumed A-ext filepath.ToSlash
+//@   pure
+//@ func path/filepath.Base
+//@   assumed A-ext filepath.Base
+//@   pure
+//@ func isVendoredPackage
+//@   assumed A-int: pure string test
+//@   pure
+//@ func os.Lstat
+//@   assumed A-ext os: no effect on program memory
+//@ func (io/fs.DirEntry).IsDir
+//@   assumed A-ext fs.DirEntry.IsDir: pure
+//@   pure
+//@ func (io/fs.DirEntry).Type
+//@   assumed A-ext fs.DirEntry.Type: pure
+//@   pure
+//@ func (io/fs.FileMode).IsRegular
+//@   assumed A-ext fs.FileMode.IsRegular: pure
+//@   pure
+
+//@ invariant walkSentinels: filepath.SkipDir != nil && filepath.SkipAll != nil && filepath.SkipDir != filepath.SkipAll
+
+// (P) C15 (archive creation side): the callback handed to filepath.WalkDir
+// returns SkipDir only for a directory (for a file, SkipDir makes WalkDir skip
+// the remaining entries of the containing directory, silently dropping files
+// from the module zip), never SkipAll, and accounts for every entry it lets pass:
+// a non-directory is either listed or reported as omitted.
+//@ func listFilesInDir$1
+//@   strings abstract
+//@   requires entry != nil
+//@   requires err != filepath.SkipDir && err != filepath.SkipAll
+//@   ensures [skipdir] result == filepath.SkipDir ==> entry.IsDir()
+//@   ensures [noskipall] result != filepath.SkipAll
+//@   ensures [account] err == nil && result == nil && !entry.IsDir() ==> len(files) + len(omitted) == old(len(files) + len(omitted)) + 1
+//@   ensures [keep] len(files) >= old(len(files)) && len(omitted) >= old(len(omitted)) && (forall k int :: 0 <= k && k < old(len(files)) ==> files[k] == old(files[k]))
+//@   assigns heap
